@@ -4,4 +4,7 @@
 #![allow(clippy::type_complexity)]
 pub mod blasshim;
 pub mod engine;
+pub mod gen;
+pub mod oracle;
+pub mod solve;
 pub mod props;
